@@ -159,7 +159,30 @@ func (m *Model) DeleteTo(n int64) {
 	}
 	if n >= m.First {
 		m.First = n + 1
+		// the retained versions may have holes (legacy databases): first = lowest retained
+		for m.First < m.Latest && !m.Exists(m.First) {
+			m.First++
+		}
 	}
+}
+
+// Clone returns a deep copy (snapshots are immutable and shared).
+func (m *Model) Clone() *Model {
+	c := *m
+	c.Vers = make(map[int64]Snap, len(m.Vers))
+	for k, v := range m.Vers {
+		c.Vers[k] = v
+	}
+	c.Work = m.Work.Clone()
+	c.LastOp = map[string]byte{}
+	for k, v := range m.LastOp {
+		c.LastOp[k] = v
+	}
+	c.Written = map[int64]map[string]bool{}
+	for k, v := range m.Written {
+		c.Written[k] = v
+	}
+	return &c
 }
 
 // DeleteFrom removes versions >= n.
